@@ -194,4 +194,5 @@ def main():
         sh(f'git -C /repo worktree remove --force {wt}')
         shutil.rmtree(mx, ignore_errors=True)
 
-main()
+if __name__ == '__main__':
+    main()
